@@ -20,6 +20,12 @@ var c19FaultKinds = []string{
 // c19Patch builds a valid multi-change patch and injects one fault; it returns the text and
 // the 1-based line and byte column of the offending token (cols lists acceptable columns).
 func c19Patch(r *rand.Rand, kind string) (text string, line int, cols []int, changeIdx int, shape string) {
+	indented := false
+	defer func() {
+		if indented {
+			shape += "+indented-declaration"
+		}
+	}()
 	nChanges := 1 + r.Intn(5)
 	faultAt := r.Intn(nChanges)
 	if kind == "header-plain-text-first-line" {
@@ -153,9 +159,14 @@ func c19Patch(r *rand.Rand, kind string) (text string, line int, cols []int, cha
 				if r.Intn(4) == 0 {
 					lines = append(lines, "")
 				}
-				lines = append(lines, ml)
+				// declarations may be indented (blanks, tabs): the column counts the indentation
+				ind := []string{"", "", "  ", "\t", " \t "}[r.Intn(5)]
+				lines = append(lines, ind+ml)
 				if i == pos {
-					line, cols = len(lines), []int{col}
+					line, cols = len(lines), []int{col + len(ind)}
+					if ind != "" {
+						indented = true
+					}
 				}
 			}
 		} else {
@@ -191,7 +202,7 @@ func init() {
 			if tier == "thorough" {
 				return 40000
 			}
-			return 3000
+			return 12000
 		},
 		Floor: func(string) int { return 500 },
 		Run:   runC19,
